@@ -64,6 +64,8 @@ THEOREMS = [
     "C05_exact_root_rejects",
     "C05_exact_member_step",
     "C05_exact_member_sound_partial",
+    "C05_exact_sound_partial",
+    "C05_exact_deep_sound",
     "C05_unit_variant_object_refuted",
     "C05_exact_detects_bytelen_filter",
     "C05_bytelen_regression",
@@ -211,6 +213,52 @@ def exact_eval(tag, docs, dumps, timeout=900):
     if len(res) != len(meta):
         raise RuntimeError("exact_eval: %d results for %d cases" % (len(res), len(meta)))
     return {k: r for k, r in zip(meta, res)}, skipped
+
+
+def instantiate(tag, docs, dumps, ids, chunk=40, timeout=1200):
+    """Kernel instantiation of C05_exact_sound_partial per explored document: `exact_all = true` by
+    vm_compute for EVERY regex engine (section variable), then the corollary "every violation at any
+    reachable depth is rejected, for every fuel" for that document's real IR.  -> (ok, detail, n)"""
+    from concurrent.futures import ThreadPoolExecutor
+    d0 = os.path.join(vlib.WORK, "cases", tag)
+    os.makedirs(d0, exist_ok=True)
+    for f in os.listdir(d0):
+        os.unlink(os.path.join(d0, f))
+    files, n = [], 0
+    for c in range(0, len(ids), chunk):
+        lines = [tocoq.COQ_HEADER,
+                 "From Typify Require Import Spec.Valid IR.Serde Check.Exact Props.C05.\n"]
+        for i in ids[c:c + chunk]:
+            d, doc = dumps[i], docs[i]
+            A = [(nm, d["ref_to_id"]["#/" + nm]) for nm in sorted(doc["definitions"]) if "#/" + nm in d["ref_to_id"]]
+            lines.append("Definition sp_%d : space := %s.\n" % (i, tocoq.cspace(d)))
+            lines.append("Definition df_%d : defs := %s.\n" % (i, tocoq.cdefs(doc["definitions"])))
+            lines.append("Definition as_%d : list (ustring * id) := %s.\n" % (
+                i, tocoq.clist(A, lambda p: "(%s, %d%%N)" % (tocoq.ustr(p[0]), p[1]), "(ustring * id)")))
+            lines.append(
+                "Section Doc_%d.\n"
+                "  Variables (re_match native_ok : ustring -> ustring -> bool).\n"
+                "  Lemma exact_%d : exact_all re_match df_%d sp_%d as_%d = true.\n"
+                "  Proof. vm_compute. reflexivity. Qed.\n"
+                "  Definition all_%d :\n"
+                "    forall r t s, In (r, t) as_%d -> resolve_ref df_%d r = Some s ->\n"
+                "    forall v, viol re_match df_%d s v -> forall f, de re_match native_ok sp_%d f t v = None :=\n"
+                "    C05_exact_sound_partial re_match native_ok df_%d sp_%d as_%d exact_%d.\n"
+                "End Doc_%d.\n" % ((i,) * 15))
+            n += 1
+        f = os.path.join(d0, "inst_%d.v" % (c // chunk))
+        open(f, "w").write("".join(lines))
+        files.append(f)
+
+    def one(f):
+        rc, out, err = vlib.coqc_file(f, timeout)
+        return rc, (out + err)[-1500:]
+    bad = []
+    with ThreadPoolExecutor(max_workers=min(8, vlib.NCPU)) as pool:
+        for f, (rc, txt) in zip(files, pool.map(one, files)):
+            if rc != 0:
+                bad.append(os.path.basename(f) + ": " + txt)
+    return not bad, "\n".join(bad)[:2500], n
 
 
 # ---------------------------------------------------------------------------
@@ -705,6 +753,19 @@ def run(ctx):
         ctx.oblige("validator on the curated corpus: true on every definition (incl. the regression cases of the fixed C05-F1) (%d definitions)" % len(cres),
                    not cwrong, json.dumps(cwrong)[:1500])
         ctx.coverage["validator_curated"] = {"%s/%s" % (cc[i][0], n): r for (i, n), r in cres.items()}
+        # kernel instantiation of the any-depth theorem for every document whose definitions all pass
+        all_true = sorted({i for (i, n) in res} - {i for (i, n), r in res.items() if r != "T"})
+        if coq_ok and "C05_exact_sound_partial" in thms:
+            ok_i, det_i, n_i = instantiate("c05instq" if quick else "c05instt", ex.docs,
+                                           [ex.dumps.get(i) for i in range(len(ex.docs))], all_true)
+            cdocs = [{"definitions": c["defs"]} for _, c in cc]
+            call = sorted({i for (i, n) in cres} - {i for (i, n), r in cres.items() if r != "T"})
+            ok_c, det_c, n_c = instantiate("c05instcq" if quick else "c05instct", cdocs,
+                                           [cw.gen[i]["dump"] if cw.status[i] == "ok" else None for i in range(len(cc))], call)
+            ctx.coverage["kernel_instantiations"] = n_i + n_c
+            ctx.oblige("kernel accepts `forall v, violation at any reachable depth -> rejected for every fuel` for the real "
+                       "IR of %d documents (C05_exact_sound_partial instantiated, every regex engine)" % (n_i + n_c),
+                       ok_i and ok_c, (det_i + det_c)[:2500])
         ctx.coverage["validator_skipped_untranslatable_docs"] = len(skp) + len(cskp)
     except Exception as e:  # noqa
         ctx.oblige("validator evaluates on the dumped IRs", False, str(e)[-2000:])
